@@ -102,6 +102,27 @@ def handle (m : String) (j : Json) : Except String Json := do
     match updateRun (List.range n) (n + 2) iters with
     | some rows => pure (Json.mkObj [("rows", Json.arr (rows.map rowsToJson).toArray)])
     | none => pure (Json.mkObj [("rows", Json.null)])
+  | "c17.interleave" =>
+    -- two consumers of the same file under a schedule: "a"/"b" = {mode, draws|orders, repeat},
+    -- "ops" = [[who(bool), "next"] | [who, "renew", rep]]
+    let n ← getNat j "n"
+    let ja ← j.getObjVal? "a"
+    let jb ← j.getObjVal? "b"
+    let withN (x : Json) : Json := x.setObjVal! "n" (Json.num (JsonNumber.fromNat n))
+    let srcA ← getSrc (withN ja)
+    let srcB ← getSrc (withN jb)
+    let repA ← getBool ja "repeat"
+    let repB ← getBool jb "repeat"
+    let ops ← (← getArr j "ops").mapM (fun o => do
+      let a ← o.getArr?
+      match a.toList with
+      | [w, Json.str "next"] => pure ((← w.getBool?), Op.next)
+      | [w, Json.str "renew", r] => pure ((← w.getBool?), Op.renew (← r.getBool?))
+      | _ => throw "bad op")
+    let r := runTwo srcA srcB (create srcA repA, create srcB repB) ops.toList
+    let enc (l : List (Option (Out Nat))) : Json :=
+      Json.arr (l.filterMap (fun o => o.map outToJson)).toArray
+    pure (Json.mkObj [("a", enc (projOuts true r.1)), ("b", enc (projOuts false r.1))])
   | "c17.shuffle" =>
     let n ← getNat j "n"
     let ds ← (← getArr j "draws").mapM (fun x => x.getNat?)
